@@ -54,6 +54,10 @@ pub struct GoSpec {
     pub ponder: bool,
     #[serde(default)]
     pub ponderhit_after_ms: Option<u64>,
+    /// text sessions only: this many `isready` lines are sent while the search runs (each must be answered by an
+    /// intact `readyok` line, and no other line may be damaged by it)
+    #[serde(default)]
+    pub pings: u8,
 }
 
 impl GoSpec {
@@ -436,7 +440,8 @@ impl BinSession {
         loop {
             match self.rx.recv_timeout(Duration::from_millis(50)) {
                 Ok(l) => {
-                    let hit = l.starts_with(until);
+                    // (a damaged line that still contains the awaited word ends the wait as well: it is judged by the caller)
+                    let hit = l.starts_with(until) || (!l.starts_with("info string") && l.contains(until));
                     out.push(l);
                     if hit {
                         return Ok(out);
@@ -504,5 +509,66 @@ impl Drop for BinSession {
             let _ = self.child.kill();
             let _ = self.child.wait();
         }
+    }
+}
+
+// ------------------------------------------------------------------------------------------------
+// a search run synchronously on the caller's thread through the cfg(inkayaku_verif) driver
+
+pub struct SyncSearch {
+    vs: inkayaku_engine_core::verif::VerifSearch<CommandUciTx>,
+    rx: Receiver<UciTxCommand>,
+}
+
+impl SyncSearch {
+    pub fn new() -> SyncSearch {
+        let (tx, rx) = channel();
+        SyncSearch { vs: inkayaku_engine_core::verif::VerifSearch::new(Arc::new(CommandUciTx::new(tx))), rx }
+    }
+
+    /// the transposition table keeps nothing (capacity 0): the search is then plain alpha-beta over the game tree and
+    /// its value is the exact minimax value at EVERY depth (with a table, values of depth >= 4 searches legitimately
+    /// depend on the order in which transpositions were met)
+    pub fn without_table(mut self) -> SyncSearch {
+        self.vs.set_table_capacity(0);
+        self
+    }
+
+    pub fn contempt(&self) -> i32 {
+        self.vs.contempt_factor()
+    }
+
+    pub fn position(&mut self, fen: &str, moves: &[String]) -> Result<(), String> {
+        let f = Fen::from_str(fen).map_err(|e| format!("{HARNESS_PREFIX} engine rejects session FEN {fen}: {e:?}"))?;
+        let mv: Vec<UciMove> = moves.iter().map(|m| UciMove::from_str(m).map_err(|e| format!("{HARNESS_PREFIX} bad session move {m}: {e:?}"))).collect::<Result<_, _>>()?;
+        self.vs.set_position(f, mv);
+        Ok(())
+    }
+
+    /// a search that ends by itself (depth limit); a panic inside the search is reported as text
+    pub fn go(&mut self, spec: &GoSpec) -> Result<SearchOutput, String> {
+        let go = spec.to_go();
+        let r = catch_unwind(AssertUnwindSafe(|| self.vs.go(go)));
+        if let Err(e) = r {
+            let msg = e.downcast_ref::<String>().cloned().or_else(|| e.downcast_ref::<&str>().map(|s| s.to_string())).unwrap_or_default();
+            return Err(format!("the search panicked: {msg}"));
+        }
+        let mut out = SearchOutput { infos: Vec::new(), best: None, ponder: None, others: 0 };
+        let mut n_best = 0;
+        while let Ok(m) = self.rx.try_recv() {
+            match m {
+                UciTxCommand::BestMove { best_move, ponder_move } => {
+                    n_best += 1;
+                    out.best = best_move;
+                    out.ponder = ponder_move;
+                }
+                UciTxCommand::Info { info } => out.infos.push(info),
+                _ => out.others += 1,
+            }
+        }
+        if n_best != 1 {
+            return Err(format!("{n_best} bestmove messages for one go"));
+        }
+        Ok(out)
     }
 }
